@@ -4,15 +4,16 @@ evidence/<ID>.json: its counts are reported separately under coverage.debug_prof
 and added to coverage.evaluations; distinct_nontrivial stays the optimised build's number."""
 import json, sys, os
 pid, rc = sys.argv[1], int(sys.argv[2])
+profile = sys.argv[3] if len(sys.argv) > 3 else "dbg"
 root = os.environ.get("VERIF_ROOT", "/verif")
-main, dbg = f"{root}/evidence/{pid}.json", f"{root}/evidence-dbg/{pid}.json"
+main, dbg = f"{root}/evidence/{pid}.json", f"{root}/evidence-{profile}/{pid}.json"
 try:
     ev = json.load(open(main)); d = json.load(open(dbg))
 except Exception as e:
     print("NOTE replica evidence not merged:", e); sys.exit(0)
 c = d["coverage"]
-ev["coverage"]["debug_profile_replica"] = {
-    "build": d.get("build_profile"), "evaluations": c["evaluations"], "distinct_nontrivial": c["distinct_nontrivial"],
+ev["coverage"]["debug_profile_replica" if profile == "dbg" else "environment_replica"] = {
+    "build": d.get("build_profile"), "environment_set": d.get("environment_set", ""), "evaluations": c["evaluations"], "distinct_nontrivial": c["distinct_nontrivial"],
     "streams": c["streams"], "wall_s": d["wall_s"], "violations": d.get("violations", 0), "exit": rc,
     "scale": os.environ.get("VERIF_SCALE"), "enum_stride": os.environ.get("VERIF_ENUM_STRIDE", "1"), "skipped_streams": os.environ.get("VERIF_SKIP_STREAMS", ""),
 }
